@@ -23,7 +23,7 @@ def _add(pid, *, rule, required, floor, text, technique, assumptions=(), exhaust
 _add(
     "C01",
     rule="inductive sweep: every single public operation (offsets 0..2N, lengths 1..N, fwd/bwd, int / uniform-tensor / per-element-distinct-tensor offset, inplace/not, same/foreign obs dtype) applied to a freshly id-filled ring for N in 1..4 x every pointer x {buffer, Parameter, None} storage, plus sampled 2-3 op compositions and random 50-300 op histories (N<=30, shapes up to 3-D, float32/float64/int64/bool); one evaluation = one operation applied and judged (return value + full state read back through read(k) and through storage). A case is non-trivial unless it is incr/decr by 0; distinct = distinct (op, N, pointer, storage, dtype, offset class, length class, direction, offset kind, inplace, foreign dtype) abstractions.",
-    required=["state_readbacks", "invariant_evaluations", "ops.readrange", "ops.writerange", "ops.push", "autocreate_checked", "range_ops_with_narrow_integer_offset_tensors"],
+    required=["records_given_non_contiguous_storage", "state_readbacks", "invariant_evaluations", "ops.readrange", "ops.writerange", "ops.push", "autocreate_checked", "range_ops_with_narrow_integer_offset_tensors"],
     floor={"quick": 500, "thorough": 1500},
     text="Held on every execution explored: each public RecordTensor operation is applied to the real class and judged, with a full state read-back, against an independent list-of-observations model using unique-id values; the single-operation x pointer x storage-kind space is enumerated completely for N<=4, longer histories are sampled. Exploration is the right level: the property is over all histories and a monitor decides only those produced.",
     technique="runtime monitoring: reference-model (list ring) monitor + icontract class invariant on the real RecordTensor, exhaustive single-op sweep N<=4 plus random histories",
@@ -77,7 +77,7 @@ _add(
          "frequency*refrac<1000 limit, and for the Bernoulli encoders also above one expected spike per step (clamped); 1-300 steps; intensities in [0,1] with exact zeros and ones), run twice from the "
          "same generator state. Non-trivial: the refractory encoder, or any case with a zero-intensity element; "
          "distinct = (encoder, online, module, dt, refractory, compensation, steps class, zero pattern, rank) abstractions.",
-    required=["shape_dtype_checks", "reproducibility_checks", "zero_intensity_elements", "refractory_gaps_checked", "zero_intensity_element_steps_in_storms", "setter_configured_encoders", "uncompensated_above_compensation_limit", "intensity_tensors_not_row_major", "online_runs_collected_before_use", "setter_vs_constructor_train_comparisons", "negative_zero_intensity_elements"],
+    required=["input_tensors_checked_after_two_encodings", "shape_dtype_checks", "reproducibility_checks", "zero_intensity_elements", "refractory_gaps_checked", "zero_intensity_element_steps_in_storms", "setter_configured_encoders", "uncompensated_above_compensation_limit", "intensity_tensors_not_row_major", "online_runs_collected_before_use", "setter_vs_constructor_train_comparisons", "negative_zero_intensity_elements"],
     floor={"quick": 200, "thorough": 400},
     text="Held on every generator seed explored: the real encoders are run over a seed sweep and every output is "
          "checked for dtype, shape / slice count, silence of zero-intensity elements, the minimum spike gap of the "
@@ -215,7 +215,7 @@ _add(
          "output, syncurrent and synspike are compared with the undelayed twin's logged state shifted per synapse. "
          "One evaluation = one step; distinct = (connection, synapse, dt, K, tolerance, delay mode, interpolation, "
          "dtype, batch, bias, start-up/steady) abstractions.",
-    required=["delayed_steps_checked", "zero_delay_steps", "delay_reassignments", "clears", "retimed_connections", "redelayed_connections", "delayed_conv_with_stride_padding_or_dilation"],
+    required=["steps_of_connections_built_with_zero_maximum_delay", "delayed_steps_checked", "zero_delay_steps", "delay_reassignments", "clears", "retimed_connections", "redelayed_connections", "delayed_conv_with_stride_padding_or_dilation"],
     floor={"quick": 150, "thorough": 600},
     text="Held on every history explored: a real delayed connection and an undelayed twin with identical parameters are "
          "stepped on the same inputs; the delayed output and the delay-offset views must equal the connection's map of "
@@ -317,7 +317,7 @@ _add(
          "different (sample 0 silent, sample 1 saturated, the rest random); 5-25 steps each. One evaluation = one step in "
          "which every sample of every observable is compared with its single-sample twin (or the sum of per-sample "
          "trainer steps); distinct = (component kind, class, batch size, delay, ...).",
-    required=["adapting_steps_checked", "adapting_steps_with_batch_size_equal_to_first_neuron_dimension", "steps_checked", "sample_comparisons", "trainer_steps_checked", "resized_components", "mid_run_clears", "single_connection_biclique_steps", "trainer_cases_with_cell_level_reduction", "trainer_cases_with_sign_changing_user_kernel", "trainer_cases_with_library_sum_reducers"],
+    required=["homeostasis_batched_steps_checked", "adapting_steps_checked", "adapting_steps_with_batch_size_equal_to_first_neuron_dimension", "steps_checked", "sample_comparisons", "trainer_steps_checked", "resized_components", "mid_run_clears", "single_connection_biclique_steps", "trainer_cases_with_cell_level_reduction", "trainer_cases_with_sign_changing_user_kernel", "trainer_cases_with_library_sum_reducers"],
     floor={"quick": 60, "thorough": 200},
     text="Held on every run explored: sample b of every output, state tensor and history tensor of a batched real "
          "component equals what an identically parameterised batch-size-1 twin produces for that sample alone, at every "
@@ -337,7 +337,7 @@ _add(
          "and compare every output and the complete final state (all state-dict entries incl. extras and non-persistent "
          "buffers) exactly. One evaluation = one checkpoint position; distinct = (layer, trainer, reducer, classifier, "
          "target kind, position class, delay, in-place).",
-    required=["checkpoints_with_pending_updates_into_a_target_whose_pending_parts_were_read", "checkpoints_loaded_a_second_time_after_the_first_replica_ran", "cloned_targets", "checkpoint_positions_checked", "restored_steps_compared", "final_states_compared", "phase_mismatch_probes", "checkpoints_with_pending_updates", "checkpoints_of_histories_grown_by_setters", "checkpoints_after_in_place_changes_of_trainer_buffers", "checkpoints_with_a_monitor_reading_state_before_the_step", "checkpoints_with_a_difference_monitor"],
+    required=["checkpoints_loaded_into_a_cleared_target.double_precision", "checkpoints_with_pending_updates_into_a_target_whose_pending_parts_were_read", "checkpoints_loaded_a_second_time_after_the_first_replica_ran", "cloned_targets", "checkpoint_positions_checked", "restored_steps_compared", "final_states_compared", "phase_mismatch_probes", "checkpoints_with_pending_updates", "checkpoints_of_histories_grown_by_setters", "checkpoints_after_in_place_changes_of_trainer_buffers", "checkpoints_with_a_monitor_reading_state_before_the_step", "checkpoints_with_a_difference_monitor"],
     floor={"quick": 20, "thorough": 120},
     shards={"quick": 8, "thorough": 32},
     exhaustive={"quick": ["every checkpoint position k in 0..T of each generated run"], "thorough": ["every checkpoint position k in 0..T of each generated run"]},
@@ -356,7 +356,7 @@ _add(
          "configuration is compared (reported configuration, recordsz/dt/duration/inclusive of every internal "
          "RecordTensor, outputs from a cleared state on the same inputs). One evaluation = one assignment judged; "
          "distinct = (component kind, class, assigned attribute).",
-    required=["refused_assignments_checked", "connection_maximum_delay_assignments", "assignments_checked", "twin_comparisons", "output_comparisons", "assignments_after_use", "configured_dtype_checks", "resting_state_comparisons", "recurrent_layer_cases"],
+    required=["cases_with_an_assignment_a_hair_away_from_the_current_value", "refused_assignments_checked", "connection_maximum_delay_assignments", "assignments_checked", "twin_comparisons", "output_comparisons", "assignments_after_use", "configured_dtype_checks", "resting_state_comparisons", "recurrent_layer_cases"],
     floor={"quick": 40, "thorough": 80},
     text="Held on every assignment sequence explored: each real property setter reports the assigned value back, leaves "
          "every other reported attribute unchanged, and the setter-built object is indistinguishable - configuration, "
